@@ -210,9 +210,30 @@ def server_file_manager(repo):
     return _file_manager(tree)
 
 
+def _atomic_template(tree):
+    """the body of `_atomic_write(path, data)` as primitive ops on `<f>.tmp` / `<f>` (None if there is no such helper)"""
+    for fn in [n for n in tree.body if isinstance(n, ast.FunctionDef) and n.name == "_atomic_write"]:
+        ops = []
+        for st in fn.body:
+            s = src(st)
+            if is_doc(st):
+                continue
+            if re.fullmatch(r"tmp_path = path\.with_name\(path\.name \+ '\.tmp'\)", s):
+                continue
+            if isinstance(st, ast.With) and src(st.items[0].context_expr) == "open(tmp_path, 'wb')" and \
+                    len(st.body) == 1 and src(st.body[0]) == "f.write(data)":
+                ops += ["openTmp", "writeTmp"]; continue
+            if s == "os.replace(tmp_path, path)":
+                ops.append("replace"); continue
+            ops.append(("unknown", s))
+        return ops
+    return None
+
+
 def _file_manager(tree):
+    atomic = _atomic_template(tree)
     out = {}
-    for fn in [n for n in tree.body if isinstance(n, ast.FunctionDef)]:
+    for fn in [n for n in tree.body if isinstance(n, ast.FunctionDef) and n.name != "_atomic_write"]:
         ops = []
         for st in fn.body:
             s = src(st)
@@ -220,15 +241,23 @@ def _file_manager(tree):
                 continue
             m = re.fullmatch(r"return _PROGRAM_PATH\.joinpath\(sid\)\.exists\(\)(.*)", s, re.S)
             if m:
-                extra = re.findall(r"joinpath\('([\w.]+)'\)\.exists\(\)", m.group(1))
-                ops.append(".retDirExists" if not extra else ".retAllExist [" + ", ".join(lean_str(e) for e in extra) + "]"); continue
+                extra = re.findall(r"and _PROGRAM_PATH\.joinpath\(sid\)\.joinpath\('([\w.]+)'\)\.exists\(\)", m.group(1))
+                rest = re.sub(r"\s*and _PROGRAM_PATH\.joinpath\(sid\)\.joinpath\('([\w.]+)'\)\.exists\(\)", "", m.group(1)).strip()
+                if rest:
+                    ops.append(f".unknown {lean_str(s)}")
+                else:
+                    ops.append(".retDirExists" if not extra else ".retAllExist [" + ", ".join(lean_str(e) for e in extra) + "]")
+                continue
             if s == "_PROGRAM_PATH.joinpath(sid).mkdir()":
                 ops.append(".mkdir"); continue
+            if s == "_PROGRAM_PATH.joinpath(sid).mkdir(exist_ok=True)":
+                ops.append(".mkdirExistOk"); continue
             if s == "shutil.rmtree(_PROGRAM_PATH.joinpath(sid))":
                 ops.append(".rmtree"); continue
             if s == "service_dir_path = _PROGRAM_PATH.joinpath(sid)":
                 continue
-            if isinstance(st, ast.If) and s.replace("\n", " ").replace("  ", " ") .startswith("if not service_dir_path.exists():") and src(st.body[0]) == "return":
+            if isinstance(st, ast.If) and src(st.test) == "not service_dir_path.exists()" and len(st.body) == 1 \
+                    and src(st.body[0]) == "return" and not st.orelse:
                 ops.append(".returnIfNoDir"); continue
             m = re.fullmatch(r"return (json|pickle)\.loads\(_PROGRAM_PATH\.joinpath\(sid\)\.joinpath\('([\w.]+)'\)\.read_(text|bytes)\((.*)\)\)", s)
             if m:
@@ -243,6 +272,16 @@ def _file_manager(tree):
                 m = re.fullmatch(r"open\((?:service_dir_path|_PROGRAM_PATH\.joinpath\(sid\))\.joinpath\('([\w.]+)'\), '(w|wb)'\)", ctx)
                 if m and len(st.body) == 1 and re.fullmatch(r"(json\.dump\(\w+, f\)|pickle\.dump\(\w+, f\)|f\.write\(\w+\))", src(st.body[0])):
                     ops.append(f".openTrunc {lean_str(m.group(1))}"); ops.append(f".write {lean_str(m.group(1))}"); continue
+            m = re.fullmatch(r"_atomic_write\((?:service_dir_path|_PROGRAM_PATH\.joinpath\(sid\))\.joinpath\('([\w.]+)'\), (.+)\)", s)
+            if m and atomic is not None:
+                data = m.group(2)
+                if re.fullmatch(r"(json\.dumps\(\w+\)\.encode\('utf8'\)|pickle\.dumps\(\w+\)|\w+)", data):
+                    for a in atomic:
+                        if isinstance(a, tuple):
+                            ops.append(f".unknown {lean_str(a[1])}")
+                        else:
+                            ops.append(f".{a} {lean_str(m.group(1))}")
+                    continue
             m = re.fullmatch(r"(\w+) = _PROGRAM_PATH\.joinpath\(sid\)\.joinpath\('([\w.]+)'\)", s)
             if m:
                 continue
@@ -357,3 +396,189 @@ def write_if_changed(path, text):
 
 if __name__ == "__main__":
     print(generate(which=("server",)))
+
+
+# ---------------------------------------------------------------------------------------- client ------
+BITS = {"config_created": "created", "config_uploaded": "uploaded", "key_created": "key",
+        "db_encrypted": "encrypted", "db_uploaded": "dbUploaded"}
+
+
+class ClientExtractor:
+    def __init__(self, repo):
+        p = os.path.join(repo, "frontend/client/services/service.py")
+        self.tree = ast.parse(open(p).read())
+        self.consts = module_consts(self.tree)
+        self.states = class_consts(self.tree, "SERVICE_STATE")
+        c = ast.parse(open(os.path.join(repo, "frontend/common/constants.py")).read())
+        self.msg = class_consts(c, "MsgType")
+
+    def bit_masks(self):
+        return {BITS[k[len("_BIT_"):].lower()]: v for k, v in self.consts.items()
+                if k.startswith("_BIT_") and k[len("_BIT_"):].lower() in BITS}
+
+    def msg_const(self, node):
+        m = re.fullmatch(r"MsgType\.(\w+)", src(node))
+        return self.msg.get(m.group(1)) if m else None
+
+    def stmt(self, st):
+        s = src(st)
+        if is_logger(st) or is_doc(st):
+            return []
+        # guards: if [not] ClientServiceState.is_X(self.get_current_service_state()): ... raise
+        if isinstance(st, ast.If) and not st.orelse:
+            t = src(st.test)
+            m = re.fullmatch(r"(not )?ClientServiceState\.is_(\w+)\(self\.get_current_service_state\(\)\)", t)
+            body = [b for b in st.body if not is_logger(b) and not (isinstance(b, ast.Assign) and src(b.targets[0]) == "reason")]
+            if m and m.group(2) in BITS and len(body) == 1 and isinstance(body[0], ast.Raise):
+                return [f".guardBit .{BITS[m.group(2)]} {'false' if m.group(1) else 'true'}"]
+            if t == "not _check_config_valid(config)" and len(body) == 1 and isinstance(body[0], ast.Raise):
+                return [".requireValidConfig"]
+            if t == "wait":
+                return [".waitSetup"] if any("register_upload_echo_future_once" in src(b) for b in st.body) else \
+                    ([".awaitReply"] if any("asyncio.wait_for(fut" in src(b) for b in st.body) else [f".unknown {lean_str(s)}"])
+        pats = [
+            (r"_check_config_valid\(config\)", ".checkConfigValidIgnored"),
+            (r"_add_salt_to_config\(config\)", ".addSalt"),
+            (r"self\.sid = _calculate_sid_by_config_content\(config\)", ".calcSid"),
+            (r"FileManager\.create_sid_folder\(self\.sid\)", ".mkdirSid"),
+            (r"FileManager\.write_service_config\(self\.sid, config\)", ".writeConfig"),
+            (r"self\.config = config", ".setMemConfig"),
+            (r"self\._store_service_meta\(\)", ".storeMeta"),
+            (r"return self\.sid", ".returnSid"),
+            (r"self\._load_config_object\(\)", ".loadConfigObject"),
+            (r"self\._load_sse_scheme\(\)", ".loadScheme"),
+            (r"sse_key = self\.sse_scheme\.KeyGen\(\)", ".keyGen"),
+            (r"FileManager\.write_key\(self\.sid, sse_key\.serialize\(\)\)", ".writeKey"),
+            (r"self\._load_sse_key\(\)", ".loadKey"),
+            (r"self\.edb = self\.sse_scheme\.EDBSetup\(self\.key, database\)", ".edbSetup"),
+            (r"FileManager\.write_encrypted_database\(self\.sid, self\.edb\.serialize\(\)\)", ".writeEdb"),
+            (r"await self\.load_websocket\(\)", ".loadWebsocket"),
+            (r"self\._load_sse_encrypted_database\(\)", ".loadEdbFile"),
+            (r"fut = None", None),
+            (r"await self\._send_message\(MsgType\.CONFIG, pickle\.dumps\(self\.config\)\)", '.sendMsg "config"'),
+            (r"await self\._send_message\(MsgType\.UPLOAD_DB, self\.edb\.serialize\(\)\)", '.sendMsg "upload_edb"'),
+            (r"token = self\.sse_scheme\.TokenGen\(self\.key, keyword\)", ".tokenGen"),
+            (r"token_bytes = token\.serialize\(\)", None),
+            (r"token_digest = hashlib\.sha256\(token_bytes\)\.digest\(\)", None),
+            (r"await self\._send_message\(MsgType\.TOKEN, token_bytes, token_digest=token_digest\)", '.sendMsg "token"'),
+            (r"content = pickle\.loads\(content_bytes\)", None),
+            (r"FileManager\.delete_encrypted_database\(self\.sid\)", ".deleteEdb"),
+        ]
+        for pat, op in pats:
+            if re.fullmatch(pat, s):
+                return [op] if op else []
+        m = re.fullmatch(r"self\.set_current_service_state\(ClientServiceState\.set_(\w+)\(self\.get_current_service_state\(\), (True|False)\)\)", s)
+        if m and m.group(1) in BITS:
+            return [f".setBit .{BITS[m.group(1)]} {m.group(2).lower()}"]
+        if isinstance(st, ast.If) and src(st.test) == "not content.get('ok', False)" and isinstance(st.body[-1], ast.Return):
+            return [".returnIfNotOk"]
+        if isinstance(st, ast.If) and src(st.test) == "self.websocket is not None" and len(st.body) == 1 and \
+                src(st.body[0]) == "await self.websocket.close()":
+            return [".closeWebsocket"]
+        return [f".unknown {lean_str(s)}"]
+
+    def handler(self, name):
+        f = find_func(self.tree, name, "Service")
+        ops = []
+        for st in f.body:
+            ops += self.stmt(st)
+        return ops
+
+    def update_table(self):
+        """update_current_client_service_state_by_server_service_state: server state -> [(bit, value)]"""
+        f = find_func(self.tree, "update_current_client_service_state_by_server_service_state", "Service")
+        rows = []
+        node = [n for n in f.body if isinstance(n, ast.If)]
+        if len(node) != 1:
+            raise KeyError("update table: unexpected shape")
+        cur = node[0]
+        while cur is not None:
+            m = re.fullmatch(r"service_state == SERVICE_STATE\.(\w+)", src(cur.test))
+            if not m:
+                raise KeyError("update table: unexpected test " + src(cur.test))
+            st = self.states[m.group(1)]
+            sets = []
+            for b in cur.body:
+                sets += self.stmt(b)
+            rows.append((st, sets))
+            cur = cur.orelse[0] if cur.orelse and isinstance(cur.orelse[0], ast.If) else None
+        return rows
+
+    def constructor(self):
+        f = find_func(self.tree, "__init__", "Service")
+        ops = []
+        for st in f.body:
+            s = src(st)
+            if is_logger(st) or is_doc(st):
+                continue
+            if isinstance(st, ast.If) and src(st.test) == "FileManager.check_sid_local_file_valid(sid)":
+                mp = {"self.config = FileManager.read_service_config(sid)": ".readConfig",
+                      "self.service_meta = FileManager.read_service_meta(sid)": ".readMeta"}
+
+                def br(body):
+                    o = []
+                    for b in body:
+                        t = src(b)
+                        if t in mp:
+                            o.append(mp[t])
+                        elif re.fullmatch(r"self\.service_meta = \{'state': _EMPTY_STATE\}", t):
+                            o.append(f".initMeta {self.consts.get('_EMPTY_STATE', 0)}")
+                        else:
+                            o.append(f".unknown {lean_str(t)}")
+                    return o
+                ops.append(f".ifLocalValid [{', '.join(br(st.body))}] [{', '.join(br(st.orelse))}]"); continue
+            if isinstance(st, ast.If) and src(st.test) == "ClientServiceState.is_config_created(self.get_current_service_state())":
+                inner = [{"self._load_sse_module()": ".loadModule", "self._load_config_object()": ".loadConfigObject"}.get(src(b), f".unknown {lean_str(src(b))}")
+                         for b in st.body if not is_logger(b)]
+                ops.append(f".ifCreated [{', '.join(inner)}]"); continue
+            if re.fullmatch(r"self\.(sid = sid|websocket = None|config = None|config_object = None|sse_scheme = None|sse_module_loader = None|edb = None|key = None|echo_futures = \{\}|result_futures = \{\})", s):
+                continue
+            if s.startswith("self.recv_msg_handler =") or s.startswith("self.echo_handler ="):
+                continue
+            ops.append(f".unknown {lean_str(s)}")
+        return ops
+
+    def echo_dispatch(self):
+        f = find_func(self.tree, "__init__", "Service")
+        for st in f.body:
+            if isinstance(st, ast.Assign) and src(st.targets[0]) == "self.recv_msg_handler" and isinstance(st.value, ast.Dict):
+                return [(self.msg_const(k) or "?" + src(k), src(v).replace("self.", "")) for k, v in zip(st.value.keys, st.value.values)]
+        raise KeyError("client recv_msg_handler table not found")
+
+
+def emit_client(repo):
+    ex = ClientExtractor(repo)
+    tree = ast.parse(open(os.path.join(repo, "frontend/client/services/file_manager.py")).read())
+    fm = _file_manager(tree)
+
+    def lst(ops, indent="    "):
+        return "[" + (",\n" + indent).join(ops) + "]"
+    masks = ex.bit_masks()
+    fields = [
+        ("bitMasks", "[" + ", ".join(f"(.{k}, {v})" for k, v in masks.items()) + "]"),
+        ("ctor", lst(ex.constructor())),
+        ("createConfig", lst(ex.handler("handle_create_config"))),
+        ("createKey", lst(ex.handler("handle_create_key"))),
+        ("encryptDatabase", lst(ex.handler("handle_encrypt_database"))),
+        ("uploadConfig", lst(ex.handler("handle_upload_config"))),
+        ("uploadEdb", lst(ex.handler("handle_upload_encrypted_database"))),
+        ("keywordSearch", lst(ex.handler("handle_keyword_search"))),
+        ("uploadConfigEcho", lst(ex.handler("handle_upload_config_echo"))),
+        ("uploadEdbEcho", lst(ex.handler("handle_upload_encrypted_database_echo"))),
+        ("closeService", lst(ex.handler("close_service"))),
+        ("echoDispatch", "[" + ", ".join(f"({lean_str(a)}, {lean_str(b)})" for a, b in ex.echo_dispatch()) + "]"),
+        ("updateTable", "[" + ", ".join(f"({st}, {lst(sets, '')})" for st, sets in ex.update_table()) + "]"),
+        ("fmCheckValid", lst(fm["check_sid_local_file_valid"])),
+        ("fmCreateSidFolder", lst(fm["create_sid_folder"])),
+        ("fmWriteConfig", lst(fm["write_service_config"])),
+        ("fmWriteMeta", lst(fm["write_service_meta"])),
+        ("fmWriteEdb", lst(fm["write_encrypted_database"])),
+        ("fmWriteKey", lst(fm["write_key"])),
+        ("fmDeleteEdb", lst(fm["delete_encrypted_database"])),
+    ]
+    L = ["/- GENERATED by harness/translate/frontend_ir.py from frontend/client/** — do not edit. -/",
+         "import SSEPyVerif.Model.ClientIR", "namespace SSEPy.Generated", "open SSEPy.ServerIR SSEPy.ClientIR", "",
+         "def clientProgram : ClientIR.Program := {"]
+    L.append(",\n".join(f"  {k} := {v}" for k, v in fields))
+    L.append("}\n\nend SSEPy.Generated\n")
+    return "\n".join(L)
